@@ -9,7 +9,7 @@ cd /verif && ./setup.sh >/dev/null 2>&1
 rc=0
 tmp=$(mktemp -d /tmp/mutants.XXXXXX)
 run() { # dir expect-mode
-  ls -d $1 | xargs -P 4 -I{} sh -c 'n=$(( $$ % 4 )); exec 9>/tmp/evalwt.lock.$n; flock 9; VERBOSE=0 EVALWT=/tmp/evalwt.$n /verif/tools/evalpatch.sh {}/patch.diff all' > $tmp/out.txt 2>&1
+  ls -d $1 | xargs -P 4 --process-slot-var=SLOT -I{} sh -c 'VERBOSE=0 EVALWT=/tmp/evalwt.$SLOT /verif/tools/evalpatch.sh {}/patch.diff all' > $tmp/out.txt 2>&1
 }
 if [ "$what" = seeded ] || [ "$what" = all ]; then
   run "/verif/seeded/C*/?"
